@@ -44,6 +44,14 @@ func format(tr *tokenReader, w io.Writer) error {
 			cmtBytes = append(cmtBytes, []byte("\n")...)
 			ew.SafeWrite(cmtBytes)
 			newlineBeforeNextRecord = false
+		case tokenKindImport:
+			// import "<path>"
+			importBytes := append(t.concrete, ' ')
+			tr.Next()
+			importBytes = append(importBytes, tr.Token().concrete...)
+			importBytes = append(importBytes, '\n')
+			ew.SafeWrite(importBytes)
+			newlineBeforeNextRecord = false
 		case tokenKindReadOnly:
 			readOnly = true
 			continue
